@@ -250,14 +250,15 @@ check('C06',
       'the model builder emits (PlantRows.v: pl_rows_start / pl_rows_rt / pl_rows_dt evaluate to exactly these inequalities); start / '
       'shutdown ramp profiles (PlantProfiles.v): j steps after a flagged start (j+1 steps before a flagged shutdown) the j-th profile '
       'values bound the output instead of the capacities, without a flag in reach the capacities apply, and with the separation row the '
-      'start and shutdown flags are exactly the transitions. The model builder Plant.v (Plant and CHPAsset with on / start / shutdown '
+      'start and shutdown flags are exactly the transitions; profiles given in another frequency than the grid (Ramp.v: interpolation / '
+      'time-weighted averaging as in _convert_ramp) stay within the range of the given profile and cover the same time. The model builder Plant.v (Plant and CHPAsset with on / start / shutdown '
       'binaries, capacity rows with profile terms, ramp rows and their release during profiles, start / shutdown definition, run-time, '
       'down-time, heat rows, initial-state bounds and rows, fuel mapping, time-varying capacity) is compared with the implementation, '
       'also on a second set-up of the same objects; on the implementation every optimised plant portfolio is checked from x (capacity '
       'or profile window, ramps incl. first step, start flags, run lengths incl. declared initial state and profile lengths, heat '
       'share, fuel drawn, cash flow), and for T <= 6 all 2^T on/off patterns are pinned through bounds and their feasibility compared '
       'with the run-length specification (units without profiles).',
-      TB + 'Not modelled: separate heat profiles and profiles in another frequency than the grid (interpolation); the release of the ramp '
+      TB + 'Not modelled: separate heat profiles; the release of the ramp '
       'rows during profiles is proved on the named release terms the builder emits (ramp binds without a flag in reach, row implied with one); the link between the abstract row inequalities and the list of rows Plant.v '
       'emits is by the row-shape lemmas and the correspondence run, not one theorem about the builder. Durations are converted to steps '
       'by the documented rounding up (harness side).',
